@@ -83,6 +83,8 @@ Inductive lpc :=
 | LRecv                 (* send returned true: return <-responder *)
 | LUpsert               (* send returned false: b.responders.Upsert(id, responder, ...) *)
 | LWait                 (* select { case <-ctx.Done(): ...  case result := <-responder: } *)
+| LTimedOut             (* variant [fixed] only: the timer has fired; b.timeout(id, responder) loops:
+                           RemoveCb(id, mine) / select { case result := <-responder: ...  case <-time.After } *)
 | LDone (r : pres).
 
 Record poll := { pid : nat; ppc : lpc }.
@@ -123,6 +125,8 @@ Inductive wframe :=
 Record work := { wf : wframe; wsub : option subst }.
 
 Record state := {
+  fixed : bool;                         (* which message() is modelled: the pinned one (false) or the one of
+                                           hooks/c19-fix-proposal.patch (true); never changes *)
   ids : list nat;                       (* keys of b.messages *)
   table : list (nat * nat * nat);       (* (id, topic, cache number): the inner sync.Maps *)
   caches : list cache;                  (* every MessageCache ever stored *)
@@ -136,9 +140,12 @@ Record state := {
   delivered : list (nat * entry)        (* ghost: (id, entry) for every entry a poll returned *)
 }.
 
-Definition init : state :=
-  {| ids := []; table := []; caches := []; resp := fun _ => None; sigs := fun _ => None;
+Definition init_of (f : bool) : state :=
+  {| fixed := f; ids := []; table := []; caches := []; resp := fun _ => None; sigs := fun _ => None;
      polls := []; chans := []; works := []; sigch := []; accepted := []; delivered := [] |}.
+
+Definition init : state := init_of false.        (* the pinned code *)
+Definition init_fixed : state := init_of true.   (* with the proposed repair of message() *)
 
 (* ------------------------------------------------------------------ helpers *)
 
@@ -183,37 +190,37 @@ Fixpoint pick (k : nat) (l : list nat) : option (nat * list nat) :=
 
 (* record updates *)
 Definition set_ids (s : state) (x : list nat) : state :=
-  {| ids := x; table := table s; caches := caches s; resp := resp s; sigs := sigs s; polls := polls s;
+  {| fixed := fixed s; ids := x; table := table s; caches := caches s; resp := resp s; sigs := sigs s; polls := polls s;
      chans := chans s; works := works s; sigch := sigch s; accepted := accepted s; delivered := delivered s |}.
 Definition set_table (s : state) x : state :=
-  {| ids := ids s; table := x; caches := caches s; resp := resp s; sigs := sigs s; polls := polls s;
+  {| fixed := fixed s; ids := ids s; table := x; caches := caches s; resp := resp s; sigs := sigs s; polls := polls s;
      chans := chans s; works := works s; sigch := sigch s; accepted := accepted s; delivered := delivered s |}.
 Definition set_caches (s : state) x : state :=
-  {| ids := ids s; table := table s; caches := x; resp := resp s; sigs := sigs s; polls := polls s;
+  {| fixed := fixed s; ids := ids s; table := table s; caches := x; resp := resp s; sigs := sigs s; polls := polls s;
      chans := chans s; works := works s; sigch := sigch s; accepted := accepted s; delivered := delivered s |}.
 Definition set_resp (s : state) x : state :=
-  {| ids := ids s; table := table s; caches := caches s; resp := x; sigs := sigs s; polls := polls s;
+  {| fixed := fixed s; ids := ids s; table := table s; caches := caches s; resp := x; sigs := sigs s; polls := polls s;
      chans := chans s; works := works s; sigch := sigch s; accepted := accepted s; delivered := delivered s |}.
 Definition set_sigs (s : state) x : state :=
-  {| ids := ids s; table := table s; caches := caches s; resp := resp s; sigs := x; polls := polls s;
+  {| fixed := fixed s; ids := ids s; table := table s; caches := caches s; resp := resp s; sigs := x; polls := polls s;
      chans := chans s; works := works s; sigch := sigch s; accepted := accepted s; delivered := delivered s |}.
 Definition set_polls (s : state) x : state :=
-  {| ids := ids s; table := table s; caches := caches s; resp := resp s; sigs := sigs s; polls := x;
+  {| fixed := fixed s; ids := ids s; table := table s; caches := caches s; resp := resp s; sigs := sigs s; polls := x;
      chans := chans s; works := works s; sigch := sigch s; accepted := accepted s; delivered := delivered s |}.
 Definition set_chans (s : state) x : state :=
-  {| ids := ids s; table := table s; caches := caches s; resp := resp s; sigs := sigs s; polls := polls s;
+  {| fixed := fixed s; ids := ids s; table := table s; caches := caches s; resp := resp s; sigs := sigs s; polls := polls s;
      chans := x; works := works s; sigch := sigch s; accepted := accepted s; delivered := delivered s |}.
 Definition set_works (s : state) x : state :=
-  {| ids := ids s; table := table s; caches := caches s; resp := resp s; sigs := sigs s; polls := polls s;
+  {| fixed := fixed s; ids := ids s; table := table s; caches := caches s; resp := resp s; sigs := sigs s; polls := polls s;
      chans := chans s; works := x; sigch := sigch s; accepted := accepted s; delivered := delivered s |}.
 Definition set_sigch (s : state) x : state :=
-  {| ids := ids s; table := table s; caches := caches s; resp := resp s; sigs := sigs s; polls := polls s;
+  {| fixed := fixed s; ids := ids s; table := table s; caches := caches s; resp := resp s; sigs := sigs s; polls := polls s;
      chans := chans s; works := works s; sigch := x; accepted := accepted s; delivered := delivered s |}.
 Definition set_accepted (s : state) x : state :=
-  {| ids := ids s; table := table s; caches := caches s; resp := resp s; sigs := sigs s; polls := polls s;
+  {| fixed := fixed s; ids := ids s; table := table s; caches := caches s; resp := resp s; sigs := sigs s; polls := polls s;
      chans := chans s; works := works s; sigch := sigch s; accepted := x; delivered := delivered s |}.
 Definition set_delivered (s : state) x : state :=
-  {| ids := ids s; table := table s; caches := caches s; resp := resp s; sigs := sigs s; polls := polls s;
+  {| fixed := fixed s; ids := ids s; table := table s; caches := caches s; resp := resp s; sigs := sigs s; polls := polls s;
      chans := chans s; works := works s; sigch := sigch s; accepted := accepted s; delivered := x |}.
 
 (* responder <- v : enabled only when the (capacity 1) channel is empty *)
@@ -373,9 +380,25 @@ Definition poll_step (s : state) (p k : nat) : option state :=
           match k with
           | O => poll_recv s p id
           | S _ =>
-              (* case <-ctx.Done(): go b.doHeartBeat(context.Background(), id); return map[string][]Message{}
-                 the responder stays wherever it is *)
-              Some (set_poll (spawn_hb s id) p id (LDone RTimeout))
+              if fixed s
+              then (* case <-ctx.Done(): return b.timeout(id, responder) *)
+                   Some (set_poll s p id LTimedOut)
+              else (* case <-ctx.Done(): go b.doHeartBeat(context.Background(), id); return map[string][]Message{}
+                      the responder stays wherever it is *)
+                   Some (set_poll (spawn_hb s id) p id (LDone RTimeout))
+          end
+      | LTimedOut =>
+          match k with
+          | O =>
+              (* if b.responders.RemoveCb(id, mine) { go b.doHeartBeat(...); return map[string][]Message{} }
+                 mine: the registered value is this poll's responder *)
+              match resp s id with
+              | Some r => if Nat.eqb r p
+                          then Some (set_poll (spawn_hb (set_resp s (fupd (resp s) id None)) id) p id (LDone RTimeout))
+                          else None
+              | None => None
+              end
+          | S _ => poll_recv s p id      (* case result := <-responder: return result *)
           end
       | LDone _ => None
       end
@@ -610,6 +633,10 @@ Definition is_timeout (s : state) (e : event) : bool :=
                      | Some pl => match ppc pl with LWait => true | _ => false end
                      | None => false
                      end
+  | EPoll p O => match nth_error (polls s) p with
+                 | Some pl => match ppc pl with LTimedOut => true | _ => false end
+                 | None => false
+                 end
   | _ => false
   end.
 
@@ -622,10 +649,11 @@ Definition hazard (s : state) (e : event) : bool :=
   | EPoll p (S _) =>
       match nth_error (polls s) p with
       | Some pl => match ppc pl with
-                   | LWait => match resp s (pid pl) with
-                              | Some r => negb (Nat.eqb r p)
-                              | None => true
-                              end
+                   | LWait => if fixed s then false   (* the repaired poll withdraws its responder first *)
+                              else match resp s (pid pl) with
+                                   | Some r => negb (Nat.eqb r p)
+                                   | None => true
+                                   end
                    | _ => false
                    end
       | None => false
